@@ -650,6 +650,21 @@ impl SvgElement {
         Ok(())
     }
 
+    /// A `<text>` element positioned by a list of coordinates or by lengths with
+    /// units (`x="1 2 3"`, `x="2em"`) is standard SVG which has no single anchor
+    /// point svgdx could lay text out from; its content is left as written.
+    pub fn is_verbatim_text(&self) -> bool {
+        self.name == "text"
+            && ["x", "y"].iter().any(|a| {
+                self.get_attr(a).is_some_and(|v| {
+                    strp(&v).is_err()
+                        && !(v.contains(VAR_PREFIX)
+                            || v.contains(ELREF_ID_PREFIX)
+                            || v.contains(ELREF_PREVIOUS))
+                })
+            })
+    }
+
     /// Calculate bounding box of target_shape inside self
     pub fn inscribed_bbox(&self, target_shape: &str) -> Result<Option<BoundingBox>> {
         let zstr = "0".to_owned();
